@@ -173,6 +173,17 @@ def step (s : St) (toks : List String) : St × String :=
       (match parseNat R, parseNat A, parseNat P, parseNat R', parseNat A', parseNat P' with
        | some R, some A, some P, some R', some A', some P' => (s, toString (Sif.Spec.C04.backingOK R A P R' A' P'))
        | _, _, _, _, _, _ => (s, "bad-op"))
+  | "chk" :: "c18.l1split" :: _tag :: rest =>
+      -- rest = w1 r1 w2 r2 … (weights as integers: raw multiplier × native balance)
+      (match natList rest with
+       | some l =>
+         let rec pairs : List Nat → List (Nat × Nat)
+           | a :: b :: t => (a, b) :: pairs t
+           | _ => []
+         let ps := pairs l
+         if l.length % 2 != 0 then (s, "bad-op")
+         else (s, toString (Sif.Spec.C18.splitObservedOK (ps.map (fun p => (p.1 : Rat))) (ps.map (·.2))))
+       | none => (s, "bad-op"))
   | "chk" :: "c18.recipients" :: _tag :: hook :: lock :: nch :: rest =>
       (match parseNat lock, parseNat nch with
        | some lock, some nch =>
